@@ -230,6 +230,43 @@ theorem rxn_packLen_correct (r : PRxn) (h : RxnWF r) :
         r.products.map (·.atoms.length)⟩ :=
   rxn_packLen_aux r h
 
+/-- **the public dispatcher `chython.unpack` / `chython.unpach`**: a molecule pack of either format version (documented
+    bytes) is returned as that molecule, a reaction pack as that reaction — header bytes 0 and 2 go to the molecule reader,
+    1 falls through to the reaction reader. -/
+theorem unpach_dispatch :
+    (∀ (m : PMol) (_ : WF m) (rest : List Nat), ∃ b2 b0, layoutBytes m = some b2 ∧ layoutBytesV0 m = some b0 ∧
+        unpach (b2 ++ rest) = .ok (.mol ⟨m.atoms.map eraseSt, ctListOf m.terminals (firstSeen [] m.atoms), b2.length⟩) ∧
+        unpach (b0 ++ rest) = .ok (.mol ⟨m.atoms.map eraseSt, ctListOf m.terminals (firstSeen [] m.atoms), b0.length⟩)) ∧
+    (∀ (r : PRxn) (_ : RxnWF r), ∃ bytes, rxnEncode r = .ok bytes ∧
+        unpach bytes = .ok (.rxn ⟨r.reactants.map decodedOf, r.reagents.map decodedOf, r.products.map decodedOf⟩)) := by
+  constructor
+  · intro m h rest
+    obtain ⟨b2, l2, d2⟩ := decode_layout_aux m h rest
+    obtain ⟨b0, l0, d0⟩ := decode_layout_v0_aux m h rest
+    exact ⟨b2, b0, l2, l0, by simp only [unpach, d2], by simp only [unpach, d0]⟩
+  · intro r h
+    obtain ⟨bytes, e1, e2⟩ := rxn_roundtrip_aux r h
+    refine ⟨bytes, e1, ?_⟩
+    have hc : ¬ (r.reactants.length > 255 ∨ r.reagents.length > 255 ∨ r.products.length > 255) := by
+      have := h.reactants; have := h.reagents; have := h.products; omega
+    simp only [rxnEncode, if_neg hc] at e1
+    cases hb : encodeAll r.molecules with
+    | error e => simp [hb, bind, Except.bind] at e1
+    | ok body =>
+      simp only [hb, bind, Except.bind, pure, Except.pure] at e1
+      have hbytes : bytes = 1 :: r.reactants.length :: r.reagents.length :: r.products.length :: body := by
+        injection e1 with e1; exact e1.symm
+      have hdec : decode bytes = .error .header := by rw [hbytes]; rfl
+      simp only [unpach, hdec, e2]; rfl
+
+/-- the regenerated code tables against the FROZEN published table (`Spec.PackLayout.publishedCommonIsotopes`):
+    an edit of the tables — also a consistent edit of both `.pyx` files, or of `mdl_isotope` — is a change of the format -/
+theorem tables_match_published :
+    publishedCommonIsotopes.length = 119 ∧
+    (∀ z < 119, 1 ≤ z → (publishedCommonIsotopes[z]?).map (fun (v : Nat) => (v : Int) - 16) = commonAt packCommon z ∧
+        (publishedCommonIsotopes[z]?).map (fun (v : Nat) => (v : Int) - 16) = commonAt unpackCommon z) ∧
+    (∀ r ∈ packElemRows, publishedCommonIsotopes[r.1]? = some r.2.2.1) := by decide +kernel
+
 /-- more than 255 molecules in a role cannot be framed (error branch of `bytearray((1, r, g, p))`) -/
 theorem rxn_rejects (r : PRxn) (h : r.reactants.length > 255 ∨ r.reagents.length > 255 ∨ r.products.length > 255) :
     rxnEncode r = .error .count := by
